@@ -271,7 +271,7 @@ def kernel(task):
 
 
 def run(task):
-    return {"options": options, "kernel": kernel, "exchange": exchange, "fit_trace": fit_trace, "choice": choice, "exchange_step": exchange_step}[task["op"]](task)
+    return {"options": options, "kernel": kernel, "exchange": exchange, "fit_trace": fit_trace, "choice": choice, "exchange_step": exchange_step, "init_state": init_state}[task["op"]](task)
 
 
 def exchange_step(task):
@@ -326,6 +326,56 @@ def exchange_step(task):
     finally:
         np.random.rand = orig
     return {"n": n, "bad": bad}
+
+
+def init_state(task):
+    """the chain starts (and stays) inside the genotype space: with SNVs that no read covers and differing allele counts,
+    every allele of the initial genotype handed to the sampler and of every trace row must be < n_alleles[j]"""
+    rnd = np.random.RandomState(task["seed"])
+    bad = []
+    n = 0
+    orig = M._denovo_assembler
+    try:
+        for rep in range(task["n"]):
+            P = int(rnd.choice([2, 3, 4]))
+            N = int(rnd.randint(2, 5))
+            A = [int(x) for x in rnd.choice([2, 2, 3, 4], size=N)]
+            if len(set(A)) == 1:
+                A[0] = 2
+                A[-1] = 3
+            reads, counts = make_reads(rnd, N, A, 4)
+            uncovered = [j for j in range(N) if rnd.rand() < 0.4]
+            for j in uncovered:
+                reads[:, j, :] = np.nan
+            seen = {}
+
+            def wrap(**kw):
+                seen["init"] = np.array(kw["genotype"]).copy()
+                seen["na"] = np.array(kw["n_alleles"]).copy()
+                return orig(**kw)
+
+            M._denovo_assembler = wrap
+            with np.errstate(all="ignore"):
+                m = M.DenovoMCMC(ploidy=P, n_alleles=A, steps=task.get("steps", 30), chains=1, fix_homozygous=0.999, random_seed=task["seed"] * 1000 + rep,
+                                 inbreeding=float(rnd.choice([0.0, 0.3, 0.6])), temperatures=tuple([[1.0], [0.2, 1.0], [0.1, 0.4, 1.0]][int(rnd.randint(3))]))
+                try:
+                    tr = m.fit(reads, read_counts=counts)
+                except Exception as e:  # noqa
+                    bad.append({"what": "fit-raised", "A": A, "uncovered": uncovered, "error": "%s: %s" % (type(e).__name__, e)})
+                    continue
+            n += 1
+            if "init" in seen and (seen["init"] >= seen["na"][None, :]).any():
+                bad.append({"what": "InitialGenotypeInRange", "A": A, "uncovered": uncovered, "initial": seen["init"].astype(int).tolist(),
+                            "n_alleles_sampled": seen["na"].astype(int).tolist()})
+            g = tr.genotypes[0]
+            over = (g >= np.array(A)[None, None, :]).any(axis=(1, 2))
+            if over.any():
+                bad.append({"what": "TraceGenotypeInRange", "A": A, "uncovered": uncovered, "steps_out_of_range": int(over.sum()), "first": g[over][0].astype(int).tolist()})
+            if len(bad) > 6:
+                break
+    finally:
+        M._denovo_assembler = orig
+    return {"n": n, "bad": bad[:6]}
 
 
 def choice(task):
